@@ -1,6 +1,6 @@
 (* C01 - KV store behaves as an ordered map for every operation history.  Statements only. *)
 Require Import List ZArith Lia. Import ListNotations.
-Require Import IW.KV.Node IW.KV.Spec IW.KV.Node_proofs IW.KV.Keys IW.KV.Inst IW.KV.Keys_proofs IW.KV.KeysCompound_proofs IW.KV.KeysReal_proofs IW.KV.Skip IW.KV.Skip_proofs IW.Gen.Facts.
+Require Import IW.KV.Node IW.KV.Spec IW.KV.Node_proofs IW.KV.Keys IW.KV.Inst IW.KV.Keys_proofs IW.KV.KeysCompound_proofs IW.KV.KeysReal_proofs IW.KV.KeysCompound2_proofs IW.KV.Skip IW.KV.Skip_proofs IW.Gen.Facts.
 
 (* For EVERY history of put (plain, no-overwrite, with an update function standing for increment / put-handler),
    get and delete, every choice of skip-list levels (they do not enter this layer) and every comparator that is a
@@ -91,6 +91,38 @@ Proof.
   - unfold NPIVOT, NIDX, SPLIT_PIVOT, KVBLK_IDXNUM. vm_compute. lia.
 Qed.
 Print Assumptions C01_kv_refines_map_realkeys.
+
+(* ... and for the two typed key modes with a compound part (IWDB_COMPOUND_KEYS | IWDB_REALNUM_KEYS, IWDB_COMPOUND_KEYS |
+   IWDB_VNUM64_KEYS) on the keys the API can produce: non-empty key bytes (size 0 is refused), encodable compound part, integer
+   keys of 1..10 bytes.  With these, every key mode of the store is covered without a hypothesis on the comparator. *)
+Theorem C01_kv_refines_map_real_compound :
+  forall (upd : value -> value -> option value) (ops : list (op rckey value)) (st : nat * chain rckey value),
+    NodeInv rckey value rckey_cmp NIDX (snd st) ->
+    let '(st', outs) := run rckey value rckey_cmp NIDX NPIVOT upd st ops in
+    let '(l', souts) := spec_run rckey value rckey_cmp upd (flat rckey value (snd st)) ops in
+    flat rckey value (snd st') = l' /\ outs = souts /\ NodeInv rckey value rckey_cmp NIDX (snd st').
+Proof.
+  intros upd. apply kv_refines_map.
+  - exact realcompound_cmp_lt_eq.
+  - exact realcompound_cmp_antisym.
+  - exact realcompound_cmp_trans.
+  - unfold NPIVOT, NIDX, SPLIT_PIVOT, KVBLK_IDXNUM. vm_compute. lia.
+Qed.
+Print Assumptions C01_kv_refines_map_real_compound.
+Theorem C01_kv_refines_map_int_compound :
+  forall (upd : value -> value -> option value) (ops : list (op vckey value)) (st : nat * chain vckey value),
+    NodeInv vckey value vckey_cmp NIDX (snd st) ->
+    let '(st', outs) := run vckey value vckey_cmp NIDX NPIVOT upd st ops in
+    let '(l', souts) := spec_run vckey value vckey_cmp upd (flat vckey value (snd st)) ops in
+    flat vckey value (snd st') = l' /\ outs = souts /\ NodeInv vckey value vckey_cmp NIDX (snd st').
+Proof.
+  intros upd. apply kv_refines_map.
+  - exact intcompound_cmp_lt_eq.
+  - exact intcompound_cmp_antisym.
+  - exact intcompound_cmp_trans.
+  - unfold NPIVOT, NIDX, SPLIT_PIVOT, KVBLK_IDXNUM. vm_compute. lia.
+Qed.
+Print Assumptions C01_kv_refines_map_int_compound.
 
 (* "every random skip-list level choice": the multi-level search of _lx_find_bounds / _lx_roll_forward (KV/Skip.v: start
    at the head on any level, roll forward while the next node on that level starts at or before the key, descend) ends
